@@ -2,6 +2,7 @@
 
 from collections.abc import Iterable
 from dataclasses import dataclass, field
+from html import escape
 
 import graphviz as gv  # type: ignore[import-untyped]
 from graphviz import Digraph
@@ -211,7 +212,8 @@ class DotRenderer:
         meta = hugr[node].metadata
         if len(meta) > 0:
             data = "<BR/><BR/>" + "<BR/>".join(
-                f"{key}: {value}" for key, value in meta.items()
+                f"{escape(str(key), quote=False)}: {escape(str(value), quote=False)}"
+                for key, value in meta.items()
             )
         else:
             data = ""
@@ -232,6 +234,8 @@ class DotRenderer:
             op_name = op.op_def().name
         else:
             op_name = op.name()
+        # the name is placed inside an HTML-like label: "<", ">" and "&" must be escaped
+        op_name = escape(op_name, quote=False)
         if hugr.children(node):
             with graph.subgraph(name=f"cluster{node.idx}") as sub:
                 for child in hugr.children(node):
